@@ -76,7 +76,8 @@ class Sched:
     """State of one execution."""
 
     def __init__(self, prefix=(), *, max_steps=20000, max_clock=1e9, timer_deviations=True,
-                 release_points=True, start_clock=1000.0, record_desc=False):
+                 release_points=True, start_clock=1000.0, record_desc=False, switch_cost=0):
+        self.switch_cost = switch_cost
         self.prefix = prefix
         self.max_steps = max_steps
         self.max_clock = max_clock
@@ -140,7 +141,10 @@ class Sched:
             opts.append((cur, 0, "cont"))
         for t in self.threads:
             if t is not cur and self._enabled(t):
-                opts.append((t, 1 if cur_enabled else 0, "run"))
+                # switching away from a runnable thread is a preemption (cost 1); when the running thread
+                # cannot go on, the first candidate is the default and the others cost `switch_cost`
+                # (0 = preemption bounding a la CHESS, 1 = delay bounding)
+                opts.append((t, 1 if cur_enabled else (self.switch_cost if opts else 0), "run"))
         if opts:
             base = 1
             if self.timer_deviations:
@@ -1076,7 +1080,8 @@ def instrument(line_modules=(), instr_functions=(), exclude=()):
             stack.extend(k for k in c.co_consts if isinstance(k, types.CodeType))
     for m in line_modules:
         for c in _code_objects(m, seen):
-            if c in instr_codes or c.co_qualname in exclude:
+            if c in instr_codes or c.co_qualname in exclude or any(
+                    x.endswith(".") and c.co_qualname.startswith(x) for x in exclude):
                 continue
             _mon.set_local_events(_TOOL, c, _mon.events.LINE)
             desc["line"].append(c.co_qualname)
